@@ -36,9 +36,35 @@ def make_case(seed, idx, tier):
         "max_pop": 14,
         "max_gens": 3,
     }
+    churn = idx % 8 == 5
+    if churn:
+        # three levels on which short-lived leaves keep stopping and several mid-level demes keep sprouting new ones: the lowest level
+        # is then in *creation* order, which interleaves the children of different parents
+        prof.update({"n_levels": 3, "root": ["sea", "de", "shade", "sea_cx"][(idx // 8) % 4], "inner": ["sea", "de", "shade"][(idx // 8) % 3], "leaf": ["sea", "cma", "de", "local"][(idx // 8) % 4],
+                     "lscs": ["dontstop"], "hibernation": False, "sprout": "simple", "level_limit": 3, "fams": ["rastrigin", "funnel"], "boxes": ["sym", "asym"], "stacks": False, "free_lscs": True})
     d = gen.gen_tree_case(rng, prof)
     d["gsc"] = {"k": "melimit", "n": rng.randint(3, 7)}
+    if churn and len(d["levels"]) == 3:
+        d["gsc"] = {"k": "melimit", "n": 9}
+        d["levels"][2]["lsc"] = {"k": "melimit", "n": 1 + (idx // 8) % 2}
+        for lv in d["levels"][:2]:
+            lv["lsc"] = {"k": "dontstop"}
+            if "pop" in lv:
+                lv["pop"] = max(lv["pop"], 10)
+        rmin = min(b[1] - b[0] for b in d["box"]["bounds"])
+        d["sprout"]["far"] = rmin * 0.02
     d["objective_form"] = ["closure", "lambda", "callable"][idx % 3]
+    if idx % 8 == 3:
+        # dump purity on a tree that holds NaN fitness values (objective undefined in a region): comparing two such individuals draws
+        # from Python's global generator in this library, so *any* look at "the best" while dumping would alter the global random state.
+        # Only the clauses about the dump itself are decided on these runs (see run_case).
+        d2 = gen.gen_tree_case(gen.case_rng("C19", seed, idx, "nan"), {"dim": (2, 2), "root": ["sea", "de", "lhs", "sobol", "ga", "shade"][(idx // 8) % 6], "leaf": ["sea", "de"][(idx // 8) % 2],
+                                                                      "levels": [1, 2], "gsc": "melimit", "lscs": ["dontstop"], "stacks": False, "fam": "nanzone", "boxes": ["sym", "asym"],
+                                                                      "hibernation": False, "entry": "tree", "max_pop": 12, "max_gens": 2, "sprout": "simple"})
+        d2["gsc"] = {"k": "melimit", "n": 4}
+        d2["objective_form"] = d["objective_form"]
+        d2["dump_purity_only"] = True
+        d = d2
     d["continue_every"] = 2 if tier == "quick" else 1
     d["kind"] = "c19"
     return d
@@ -145,6 +171,24 @@ def run_case(desc):
                         viol("pickle_dump altered the global random state", k=k)
                     if len(ctx.log) != n_log:
                         viol("pickle_dump invoked the objective", k=k)
+                    if desc.get("dump_purity_only"):
+                        # would a look at the best have drawn from the global generator here?  (measured, then undone)
+                        st_ = (np.random.get_state(), random.getstate())
+                        fp_ = rng_fingerprint()
+                        try:
+                            _ = tree.best_individual
+                        except Exception:
+                            pass
+                        if rng_fingerprint() != fp_:
+                            cov["dumps_of_a_tree_on_which_reading_the_best_draws_from_the_global_generator"] += 1
+                        np.random.set_state(st_[0])
+                        random.setstate(st_[1])
+                        cov["dumps_of_a_tree_holding_nan_fitness_values"] += int(any(i_.fitness != i_.fitness for l_ in tree.levels for d_ in l_ for i_ in d_.all_individuals))
+                        if tree._gsc(tree) or k > 12:
+                            break
+                        tree.run_step()
+                        k += 1
+                        continue
                     live = public_snapshot(tree)
                     live["gsc_verdict"] = _gsc_verdict(tree)
                     live["raw"] = before
@@ -156,6 +200,12 @@ def run_case(desc):
                         cov["snapshot_with_hibernating_deme"] += 1
                     if any(d.metaepoch_count == 0 and d.level > 0 for lvl in tree.levels for d in lvl):
                         cov["snapshot_with_fresh_deme"] += 1
+                    if len(tree.levels) >= 3 and len(tree.levels[2]) >= 3:
+                        par = {c_.id: p_.id for p_ in tree.levels[1] for c_ in p_.children}
+                        seq = [par.get(d_.id) for d_ in tree.levels[2]]
+                        runs = [x for i_, x in enumerate(seq) if i_ == 0 or seq[i_ - 1] != x]
+                        if len(runs) != len(set(runs)):
+                            cov["snapshot_whose_lowest_level_interleaves_the_children_of_different_parents"] += 1
                     if live["gsc_verdict"]:
                         cov["snapshot_at_K"] += 1
                         break
@@ -178,7 +228,7 @@ def run_case(desc):
         res = run_result(ctx, desc)
         res["cov"].update(cov)
         cov = res["cov"]
-        if ctx.aborted:
+        if ctx.aborted or desc.get("dump_purity_only"):
             res["violations"] = ctx.violations
             return res
         K = snaps[-1][0]
